@@ -1,5 +1,5 @@
 (* C13 — Parsing partitions the docstring: each line is text, source or want, once. *)
-From XD Require Import Model.Base Model.Parser Spec.Partition Proofs.ParserProofs.
+From XD Require Import Model.Base Model.Parser Spec.Partition Proofs.ParserProofs Proofs.ChunkProofs.
 
 (* the labeller emits exactly one labelled line per docstring line, in order, each
    identical to the input line up to the display prefix inserted by the triple-quote
@@ -35,3 +35,39 @@ Proof.
   intros groups. apply (pass2_lines groups None None []); [intros _; split; reflexivity | reflexivity].
 Qed.
 Print Assumptions C13_pass2_keeps_lines.
+
+(* the parts made from one source/want chunk tile its source lines: ascending boundaries from 0, part j holds
+   the lines between boundary j and j+1 (prompted and de-prompted alike), starts at the chunk's line + boundary j,
+   and only the last part carries the want -- for EVERY answer of the tokenizer, ast and directive oracles *)
+Theorem C13_parts_tile_chunk : forall o raw_src raw_want lineno ps,
+  package_chunk o raw_src raw_want lineno = Ok ps ->
+  PartsTile lineno (dedent_chunk raw_src) (dedent_want raw_src raw_want) ps.
+Proof. exact package_chunk_tiles. Qed.
+Print Assumptions C13_parts_tile_chunk.
+
+(* hence: source lines, executable lines and want lines of a chunk are the concatenation of its parts', in order *)
+Theorem C13_chunk_partition : forall o raw_src raw_want lineno ps,
+  package_chunk o raw_src raw_want lineno = Ok ps ->
+  concat (map orig_lines ps) = dedent_chunk raw_src /\
+  concat (map exec_lines ps) = map (skipn 4) (dedent_chunk raw_src) /\
+  concat (map want_lines ps) = dedent_want raw_src raw_want.
+Proof. exact package_chunk_partition. Qed.
+Print Assumptions C13_chunk_partition.
+
+(* a boundary list that starts at 0 and ascends really tiles: no line lost, duplicated or reordered *)
+Theorem C13_tiles_cover : forall (l : list str) bs,
+  hd_error bs = Some O -> Ascending bs -> concat (tiles bs l) = l.
+Proof. exact (@tiles_concat str). Qed.
+Print Assumptions C13_tiles_cover.
+
+(* end to end: whenever parsing succeeds, docstring lines -> labelled lines -> chunks -> items is a partition
+   at every stage, and every chunk becomes one text item or the parts that tile it, at the right line *)
+Theorem C13_parse_partition : forall o s items,
+  parse o s = Parsed items ->
+  exists ll gs,
+    length ll = length (splitlines (normalize_docstring s)) /\
+    Forall2 SameLineUpToHack ll (splitlines (normalize_docstring s)) /\
+    flatten_chunks gs = map snd ll /\
+    Tiled 0 gs items.
+Proof. exact parse_partition. Qed.
+Print Assumptions C13_parse_partition.
